@@ -623,4 +623,7 @@ def run(cx, tier='quick'):
     rep.floor('SEL', 2)
     rep.assumptions += ['a user expression is evaluated as written', 'struct-expression semantics']
     rep.not_decided += ['the value of user expressions']
+    from .c13 import include_own_parsers as _iop
+    from ..facts import Facts as _Fp
+    _iop(cx, _Fp(cx), rep, ['::default::'])
     return rep
